@@ -159,6 +159,13 @@ def run_assignment(ctx, tname, seq, both_contexts=True, then=()):
     mt = spec[tname]
     state = model_defaults(mt)
     mod = cls_of(tname)()
+    if tname == "MetaModule" and len(repr(seq)) % 2:
+        # its user-defined controllers carry names that are also the names of its options
+        from checks import c09
+
+        labels_ = [o.name.replace("_", " ").capitalize() for o in mt.options][:12]
+        c09.label_user_controllers(mod, labels_)
+        state["user_defined_controllers"] = len(labels_)  # the count is itself one of the options
     back = run_generation(ctx, tname, mt, mod, state, seq, both_contexts, "")
     for gi, (carrier, seq2) in enumerate(then, 2):
         # "same": the very object that has just been saved (stand-alone and inside a project) goes on being edited
